@@ -1788,7 +1788,7 @@ def decimal_geometries(rng, n):
         elif ty in ("LineString", "MultiPoint"):
             c = cloud(rng.randint(1 if ty == "MultiPoint" else 2, 5))
         elif ty == "MultiLineString":
-            c = [cloud(rng.randint(2, 4)) for _ in range(rng.randint(1, 3))]
+            c = [sorted(cloud(rng.randint(2, 4))) for _ in range(rng.randint(1, 3))]   # the data model wants lines time-ordered
         elif ty == "Polygon":
             c = poly()
         else:
